@@ -1,12 +1,14 @@
 //! `vh iters`: whole histories of the iterator API for every pattern x text: find_iter,
-//! captures_iter, split, splitn, replacen.  Only texts with at least one yielded item (or an
-//! abnormal end) are logged; borrowed replacements are counted.
-use crate::astp::to_pattern;
+//! captures_iter, split, splitn, replacen, plus the single-search entry points per cell.
+//! Only texts with at least one yielded item (or an abnormal end) are logged; borrowed
+//! replacements are counted.  With --with-regex the same record is also produced from the
+//! regex crate (fields prefixed r_) for the C04 differential.
+use crate::astp::{to_pattern, to_pattern_variant};
 use crate::rows::{ascii, load_texts};
 use crate::tok::string2toks;
-use crate::util::{j, read_ndjson, Opts};
+use crate::util::{boundaries, j, read_ndjson, Opts};
 use fancy_regex::{Captures, NoExpand, Regex, RegexBuilder};
-use serde_json::{json, Value};
+use serde_json::{json, Map, Value};
 use std::borrow::Cow;
 use std::io::Write;
 use std::panic::{catch_unwind, AssertUnwindSafe};
@@ -15,6 +17,7 @@ pub const END_OK: i64 = 0;
 pub const END_ERR: i64 = 1;
 pub const END_RUNAWAY: i64 = 2;
 pub const END_PANIC: i64 = 3;
+pub const NREPL: usize = 8;
 
 fn cap_items(text: &str) -> usize {
     3 * text.len() + 10
@@ -61,65 +64,228 @@ fn span_of(text: &str, piece: &str) -> (usize, usize) {
     (a, a + piece.len())
 }
 
-pub const NREPL: usize = 8;
+pub enum Rep {
+    Same,
+    Borrowed(String),
+    Owned(String),
+    Err,
+    Panic,
+}
 
-fn replace_with<'t>(re: &Regex, text: &'t str, lim: usize, rid: usize, name: &str) -> Result<Cow<'t, str>, fancy_regex::Error> {
-    match rid {
-        0 => re.try_replacen(text, lim, |c: &Captures| c.get(0).map(|m| m.as_str().to_string()).unwrap_or_default()),
-        1 => re.try_replacen(text, lim, "x"),
-        2 => re.try_replacen(text, lim, NoExpand("$1")),
-        3 => re.try_replacen(text, lim, "$0"),
-        4 => re.try_replacen(text, lim, "[$1]"),
-        5 => re.try_replacen(text, lim, format!("${{{}}}", name).as_str()),
-        6 => re.try_replacen(text, lim, "$$"),
-        7 => re.try_replacen(text, lim, |_: &Captures| "x"),
-        _ => unreachable!(),
+/// what both crates can be asked
+pub trait Eng {
+    fn find_iter(&self, t: &str) -> (i64, i64, Vec<i64>);
+    fn caps_iter(&self, t: &str) -> (i64, i64, Vec<i64>);
+    fn split(&self, t: &str, lim: Option<usize>) -> (i64, i64, Vec<i64>);
+    fn replace(&self, t: &str, lim: usize, rid: usize) -> Rep;
+    fn is_match(&self, t: &str) -> i64;
+    /// [status, s, e]
+    fn find(&self, t: &str) -> Vec<i64>;
+    fn caps0(&self, t: &str) -> Vec<i64>;
+    fn find_at(&self, t: &str, p: usize) -> Vec<i64>;
+    /// [status, s0, e0, s1, e1, ...]
+    fn caps_at(&self, t: &str, p: usize) -> Vec<i64>;
+}
+
+fn span3(r: std::thread::Result<Result<Option<(usize, usize)>, fancy_regex::Error>>) -> Vec<i64> {
+    match r {
+        Ok(Ok(Some((s, e)))) => vec![0, j(s), j(e)],
+        Ok(Ok(None)) => vec![-1, -1, -1],
+        Ok(Err(e)) => vec![crate::rows::run_status(&e), -1, -1],
+        Err(_) => vec![3, -1, -1],
     }
 }
 
-pub fn iter_record(a: &Value, texts: &[String], parts: &str, bl: i64) -> Value {
-    let ast = &a["ast"];
-    let pat = to_pattern(ast);
-    let mut rec = a.clone();
-    let m = rec.as_object_mut().unwrap();
-    m.insert("pat".into(), json!(ascii(&pat)));
-    m.insert("bl".into(), json!(bl));
-    for k in ["fi", "ci", "sp", "spn", "rp", "rpb"] {
-        m.insert(k.into(), json!([]));
+pub struct Fancy(pub Regex);
+const NAME1: &str = "x1";
+
+impl Eng for Fancy {
+    fn find_iter(&self, t: &str) -> (i64, i64, Vec<i64>) {
+        guarded(|| drive(self.0.find_iter(t).map(|r| r.map(|m| (m.start(), m.end())).map_err(|_| ())), cap_items(t)))
     }
-    let built = catch_unwind(|| {
-        if bl >= 0 {
-            RegexBuilder::new(&pat).backtrack_limit(bl as usize).build()
-        } else {
-            Regex::new(&pat)
+    fn caps_iter(&self, t: &str) -> (i64, i64, Vec<i64>) {
+        guarded(|| {
+            drive(self.0.captures_iter(t).map(|r| r.map(|c| { let m = c.get(0).unwrap(); (m.start(), m.end()) }).map_err(|_| ())), cap_items(t))
+        })
+    }
+    fn split(&self, t: &str, lim: Option<usize>) -> (i64, i64, Vec<i64>) {
+        guarded(|| match lim {
+            None => drive(self.0.split(t).map(|r| r.map(|p| span_of(t, p)).map_err(|_| ())), cap_items(t)),
+            Some(l) => drive(self.0.splitn(t, l).map(|r| r.map(|p| span_of(t, p)).map_err(|_| ())), cap_items(t)),
+        })
+    }
+    fn replace(&self, t: &str, lim: usize, rid: usize) -> Rep {
+        let re = &self.0;
+        let r = catch_unwind(AssertUnwindSafe(|| match rid {
+            0 => re.try_replacen(t, lim, |c: &Captures| c.get(0).map(|m| m.as_str().to_string()).unwrap_or_default()),
+            1 => re.try_replacen(t, lim, "x"),
+            2 => re.try_replacen(t, lim, NoExpand("$1")),
+            3 => re.try_replacen(t, lim, "$0"),
+            4 => re.try_replacen(t, lim, "[$1]"),
+            5 => re.try_replacen(t, lim, format!("${{{}}}", NAME1).as_str()),
+            6 => re.try_replacen(t, lim, "$$"),
+            7 => re.try_replacen(t, lim, |_: &Captures| "x"),
+            _ => unreachable!(),
+        }));
+        match r {
+            Ok(Ok(Cow::Borrowed(b))) => {
+                if b.as_ptr() == t.as_ptr() && b.len() == t.len() {
+                    Rep::Same
+                } else {
+                    Rep::Borrowed(b.to_string())
+                }
+            }
+            Ok(Ok(Cow::Owned(s))) => Rep::Owned(s),
+            Ok(Err(_)) => Rep::Err,
+            Err(_) => Rep::Panic,
         }
-    });
-    let re = match built {
-        Ok(Ok(re)) => re,
-        Ok(Err(e)) => {
-            m.insert("st".into(), json!("cerr"));
-            m.insert("ek".into(), json!(crate::rows::err_kind(&e)));
-            return rec;
+    }
+    fn is_match(&self, t: &str) -> i64 {
+        match catch_unwind(AssertUnwindSafe(|| self.0.is_match(t))) {
+            Ok(Ok(false)) => 0,
+            Ok(Ok(true)) => 1,
+            Ok(Err(_)) => 2,
+            Err(_) => 3,
         }
-        Err(_) => {
-            m.insert("st".into(), json!("cerr"));
-            m.insert("ek".into(), json!("PANIC"));
-            return rec;
+    }
+    fn find(&self, t: &str) -> Vec<i64> {
+        span3(catch_unwind(AssertUnwindSafe(|| self.0.find(t).map(|o| o.map(|m| (m.start(), m.end()))))))
+    }
+    fn caps0(&self, t: &str) -> Vec<i64> {
+        span3(catch_unwind(AssertUnwindSafe(|| self.0.captures(t).map(|o| o.map(|c| { let m = c.get(0).unwrap(); (m.start(), m.end()) })))))
+    }
+    fn find_at(&self, t: &str, p: usize) -> Vec<i64> {
+        span3(catch_unwind(AssertUnwindSafe(|| self.0.find_from_pos(t, p).map(|o| o.map(|m| (m.start(), m.end()))))))
+    }
+    fn caps_at(&self, t: &str, p: usize) -> Vec<i64> {
+        match catch_unwind(AssertUnwindSafe(|| self.0.captures_from_pos(t, p))) {
+            Ok(Ok(None)) => vec![-1],
+            Ok(Ok(Some(c))) => {
+                let mut row = vec![0];
+                for i in 0..c.len() {
+                    match c.get(i) {
+                        Some(m) => {
+                            row.push(j(m.start()));
+                            row.push(j(m.end()));
+                        }
+                        None => {
+                            row.push(-1);
+                            row.push(-1);
+                        }
+                    }
+                }
+                row
+            }
+            Ok(Err(e)) => vec![crate::rows::run_status(&e)],
+            Err(_) => vec![3],
         }
-    };
-    m.insert("st".into(), json!("ok"));
-    m.insert("ek".into(), json!(""));
-    let (mut fi, mut ci, mut sp, mut spn, mut rp) = (vec![], vec![], vec![], vec![], vec![]);
+    }
+}
+
+pub struct Rx(pub regex::Regex);
+
+impl Eng for Rx {
+    fn find_iter(&self, t: &str) -> (i64, i64, Vec<i64>) {
+        guarded(|| drive(self.0.find_iter(t).map(|m| Ok((m.start(), m.end()))), cap_items(t)))
+    }
+    fn caps_iter(&self, t: &str) -> (i64, i64, Vec<i64>) {
+        guarded(|| drive(self.0.captures_iter(t).map(|c| { let m = c.get(0).unwrap(); Ok((m.start(), m.end())) }), cap_items(t)))
+    }
+    fn split(&self, t: &str, lim: Option<usize>) -> (i64, i64, Vec<i64>) {
+        guarded(|| match lim {
+            None => drive(self.0.split(t).map(|p| Ok(span_of(t, p))), cap_items(t)),
+            Some(l) => drive(self.0.splitn(t, l).map(|p| Ok(span_of(t, p))), cap_items(t)),
+        })
+    }
+    fn replace(&self, t: &str, lim: usize, rid: usize) -> Rep {
+        let re = &self.0;
+        let r = catch_unwind(AssertUnwindSafe(|| match rid {
+            0 => re.replacen(t, lim, |c: &regex::Captures| c.get(0).map(|m| m.as_str().to_string()).unwrap_or_default()),
+            1 => re.replacen(t, lim, "x"),
+            2 => re.replacen(t, lim, regex::NoExpand("$1")),
+            3 => re.replacen(t, lim, "$0"),
+            4 => re.replacen(t, lim, "[$1]"),
+            5 => re.replacen(t, lim, format!("${{{}}}", NAME1).as_str()),
+            6 => re.replacen(t, lim, "$$"),
+            7 => re.replacen(t, lim, |_: &regex::Captures| "x"),
+            _ => unreachable!(),
+        }));
+        match r {
+            Ok(Cow::Borrowed(b)) => {
+                if b.as_ptr() == t.as_ptr() && b.len() == t.len() {
+                    Rep::Same
+                } else {
+                    Rep::Borrowed(b.to_string())
+                }
+            }
+            Ok(Cow::Owned(s)) => Rep::Owned(s),
+            Err(_) => Rep::Panic,
+        }
+    }
+    fn is_match(&self, t: &str) -> i64 {
+        self.0.is_match(t) as i64
+    }
+    fn find(&self, t: &str) -> Vec<i64> {
+        match self.0.find(t) {
+            Some(m) => vec![0, j(m.start()), j(m.end())],
+            None => vec![-1, -1, -1],
+        }
+    }
+    fn caps0(&self, t: &str) -> Vec<i64> {
+        match self.0.captures(t) {
+            Some(c) => {
+                let m = c.get(0).unwrap();
+                vec![0, j(m.start()), j(m.end())]
+            }
+            None => vec![-1, -1, -1],
+        }
+    }
+    fn find_at(&self, t: &str, p: usize) -> Vec<i64> {
+        match self.0.find_at(t, p) {
+            Some(m) => vec![0, j(m.start()), j(m.end())],
+            None => vec![-1, -1, -1],
+        }
+    }
+    fn caps_at(&self, t: &str, p: usize) -> Vec<i64> {
+        match self.0.captures_at(t, p) {
+            None => vec![-1],
+            Some(c) => {
+                let mut row = vec![0];
+                for i in 0..c.len() {
+                    match c.get(i) {
+                        Some(m) => {
+                            row.push(j(m.start()));
+                            row.push(j(m.end()));
+                        }
+                        None => {
+                            row.push(-1);
+                            row.push(-1);
+                        }
+                    }
+                }
+                row
+            }
+        }
+    }
+}
+
+/// all requested parts for one engine; `pre` is "" or "r_"
+pub fn parts_of(e: &dyn Eng, texts: &[String], parts: &str, bl: i64, pre: &str, m: &mut Map<String, Value>) {
+    let (mut fi, mut ci, mut sp, mut spn, mut rp): (Vec<Vec<i64>>, Vec<Vec<i64>>, Vec<Vec<i64>>, Vec<Vec<i64>>, Vec<Value>) =
+        (vec![], vec![], vec![], vec![], vec![]);
+    let (mut cells, mut cells0, mut rows): (Vec<Vec<i64>>, Vec<Vec<i64>>, Vec<Vec<i64>>) = (vec![], vec![], vec![]);
     let mut rpb = vec![vec![0i64; NREPL]; 4];
-    let name1 = "x1";
+    let mut trunc: i64 = 0;
     let mut bad = 0;
     for (k, t) in texts.iter().enumerate() {
-        if bad >= 3 && bl < 0 {
-            break; // record already rejected; do not spend minutes on pathological patterns
-        }
         let k1 = (k + 1) as i64;
-        let cap = cap_items(t);
-        let f = guarded(|| drive(re.find_iter(t).map(|r| r.map(|m| (m.start(), m.end())).map_err(|_| ())), cap));
+        if bad >= 3 && bl < 0 {
+            // three texts with runtime errors: stop here (all parts cover exactly the texts before
+            // `trunc`); do not spend minutes on pathological patterns
+            trunc = k1;
+            break;
+        }
+        let f = e.find_iter(t);
         if f.0 != END_OK {
             bad += 1;
         }
@@ -130,9 +296,7 @@ pub fn iter_record(a: &Value, texts: &[String], parts: &str, bl: i64) -> Value {
             fi.push(row);
         }
         if parts.contains("ci") {
-            let c = guarded(|| {
-                drive(re.captures_iter(t).map(|r| r.map(|c| { let m = c.get(0).unwrap(); (m.start(), m.end()) }).map_err(|_| ())), cap)
-            });
+            let c = e.caps_iter(t);
             if !c.2.is_empty() || c.0 != END_OK {
                 let mut row = vec![k1, c.0, c.1];
                 row.extend(&c.2);
@@ -140,14 +304,14 @@ pub fn iter_record(a: &Value, texts: &[String], parts: &str, bl: i64) -> Value {
             }
         }
         if parts.contains("sp") {
-            let s = guarded(|| drive(re.split(t).map(|r| r.map(|p| span_of(t, p)).map_err(|_| ())), cap));
+            let s = e.split(t, None);
             if active || s.0 != END_OK || s.2.len() != 2 {
                 let mut row = vec![k1, s.0, s.1];
                 row.extend(&s.2);
                 sp.push(row);
             }
             for lim in 0..=5usize {
-                let s = guarded(|| drive(re.splitn(t, lim).map(|r| r.map(|p| span_of(t, p)).map_err(|_| ())), cap));
+                let s = e.split(t, Some(lim));
                 if active || s.0 != END_OK || (lim > 0 && s.2.len() != 2) || (lim == 0 && !s.2.is_empty()) {
                     let mut row = vec![k1, lim as i64, s.0, s.1];
                     row.extend(&s.2);
@@ -155,50 +319,140 @@ pub fn iter_record(a: &Value, texts: &[String], parts: &str, bl: i64) -> Value {
                 }
             }
         }
+        if parts.contains("co") || parts.contains("rows") {
+            if parts.contains("co") {
+                let im = e.is_match(t);
+                let f0 = e.find(t);
+                let c0 = e.caps0(t);
+                if im != 0 || f0[0] != -1 || c0[0] != -1 {
+                    let mut row = vec![k1, im];
+                    row.extend(&f0);
+                    row.extend(&c0);
+                    cells0.push(row);
+                }
+            }
+            let mut cell_errs = 0;
+            for &p in boundaries(t).iter() {
+                let c = e.caps_at(t, p);
+                if c[0] > 0 {
+                    cell_errs += 1;
+                }
+                if parts.contains("rows") && c[0] != -1 {
+                    let mut row = vec![k1, p as i64];
+                    row.extend(&c);
+                    rows.push(row);
+                }
+                if parts.contains("co") {
+                    let f = e.find_at(t, p);
+                    let c3 = if c[0] == 0 { vec![0, c[1], c[2]] } else { vec![c[0], -1, -1] };
+                    if f[0] != -1 || c3[0] != -1 {
+                        let mut row = vec![k1, p as i64];
+                        row.extend(&f);
+                        row.extend(&c3);
+                        cells.push(row);
+                    }
+                }
+            }
+            if cell_errs > 0 && f.0 == END_OK {
+                bad += 1;
+            }
+        }
         if parts.contains("rp") {
             for lim in 0..=3usize {
                 for rid in 0..NREPL {
-                    let r = catch_unwind(AssertUnwindSafe(|| replace_with(&re, t, lim, rid, name1)));
-                    match r {
-                        Ok(Ok(Cow::Borrowed(b))) => {
-                            if b.as_ptr() == t.as_ptr() && b.len() == t.len() {
-                                rpb[lim][rid] += 1;
-                            } else {
-                                rp.push(json!({"k": k1, "lim": lim, "rid": rid, "end": END_OK, "cow": 0, "res": string2toks(b)}));
-                            }
-                        }
-                        Ok(Ok(Cow::Owned(s))) => rp.push(json!({"k": k1, "lim": lim, "rid": rid, "end": END_OK, "cow": 1, "res": string2toks(&s)})),
-                        Ok(Err(_)) => rp.push(json!({"k": k1, "lim": lim, "rid": rid, "end": END_ERR, "cow": 0, "res": []})),
-                        Err(_) => rp.push(json!({"k": k1, "lim": lim, "rid": rid, "end": END_PANIC, "cow": 0, "res": []})),
+                    match e.replace(t, lim, rid) {
+                        Rep::Same => rpb[lim][rid] += 1,
+                        Rep::Borrowed(b) => rp.push(json!({"k": k1, "lim": lim, "rid": rid, "end": END_OK, "cow": 0, "res": string2toks(&b)})),
+                        Rep::Owned(s) => rp.push(json!({"k": k1, "lim": lim, "rid": rid, "end": END_OK, "cow": 1, "res": string2toks(&s)})),
+                        Rep::Err => rp.push(json!({"k": k1, "lim": lim, "rid": rid, "end": END_ERR, "cow": 0, "res": []})),
+                        Rep::Panic => rp.push(json!({"k": k1, "lim": lim, "rid": rid, "end": END_PANIC, "cow": 0, "res": []})),
                     }
                 }
             }
         }
     }
-    m.insert("fi".into(), json!(fi));
-    m.insert("ci".into(), json!(ci));
-    m.insert("sp".into(), json!(sp));
-    m.insert("spn".into(), json!(spn));
-    m.insert("rp".into(), json!(rp));
+    let mut ins = |k: &str, v: Value| {
+        m.insert(format!("{}{}", pre, k), v);
+    };
+    ins("fi", json!(fi));
+    ins("ci", json!(ci));
+    ins("sp", json!(sp));
+    ins("spn", json!(spn));
+    ins("rp", json!(rp));
+    ins("cells", json!(cells));
+    ins("cells0", json!(cells0));
+    ins("rows", json!(rows));
+    ins("trunc", json!(trunc));
+    let mut v = Vec::new();
     if parts.contains("rp") {
-        let mut v = Vec::new();
         for lim in 0..4 {
             for rid in 0..NREPL {
                 v.push(vec![lim as i64, rid as i64, rpb[lim][rid]]);
             }
         }
-        m.insert("rpb".into(), json!(v));
+    }
+    ins("rpb", json!(v));
+}
+
+pub fn iter_record(a: &Value, texts: &[String], parts: &str, bl: i64, with_regex: bool) -> Value {
+    let ast = &a["ast"];
+    let variant = a.get("variant").and_then(|v| v.as_str()).unwrap_or("");
+    let pat = if variant.is_empty() { to_pattern(ast) } else { to_pattern_variant(ast, variant) };
+    let mut rec = a.clone();
+    let m = rec.as_object_mut().unwrap();
+    m.insert("pat".into(), json!(ascii(&pat)));
+    m.insert("bl".into(), json!(bl));
+    for pre in ["", "r_"] {
+        for k in ["fi", "ci", "sp", "spn", "rp", "rpb", "cells", "cells0", "rows"] {
+            m.insert(format!("{}{}", pre, k), json!([]));
+        }
+        m.insert(format!("{}trunc", pre), json!(0));
+    }
+    m.insert("r_st".into(), json!("na"));
+    let built = catch_unwind(|| {
+        if bl >= 0 {
+            RegexBuilder::new(&pat).backtrack_limit(bl as usize).build()
+        } else {
+            Regex::new(&pat)
+        }
+    });
+    match built {
+        Ok(Ok(re)) => {
+            m.insert("st".into(), json!("ok"));
+            m.insert("ek".into(), json!(""));
+            parts_of(&Fancy(re), texts, parts, bl, "", m);
+        }
+        Ok(Err(e)) => {
+            m.insert("st".into(), json!("cerr"));
+            m.insert("ek".into(), json!(crate::rows::err_kind(&e)));
+        }
+        Err(_) => {
+            m.insert("st".into(), json!("cerr"));
+            m.insert("ek".into(), json!("PANIC"));
+        }
+    }
+    if with_regex {
+        match regex::Regex::new(&pat) {
+            Ok(re) => {
+                m.insert("r_st".into(), json!("ok"));
+                parts_of(&Rx(re), texts, parts, -1, "r_", m);
+            }
+            Err(_) => {
+                m.insert("r_st".into(), json!("cerr"));
+            }
+        }
     }
     rec
 }
 
-/// --asts F --texts F --out PREFIX --shards N --parts fi,ci,sp,rp [--bl N]
+/// --asts F --texts F --out PREFIX --shards N --parts fi,ci,sp,rp,co,rows [--with-regex 1]
 pub fn cmd_iters(o: &Opts) -> Result<(), String> {
     let asts = read_ndjson(o.get("asts")?)?;
     let texts = load_texts(o.get("texts")?)?;
     let shards = o.num("shards", 1);
     let prefix = o.get("out")?.to_string();
     let parts = o.get_or("parts", "fi,ci,sp,rp").to_string();
+    let with_regex = o.0.contains_key("with-regex");
     let nthreads = o.num("threads", 8).max(1);
     let results: Vec<Vec<(usize, String)>> = std::thread::scope(|s| {
         let hs: Vec<_> = (0..nthreads)
@@ -211,7 +465,7 @@ pub fn cmd_iters(o: &Opts) -> Result<(), String> {
                             continue;
                         }
                         let bl = a.get("bl").and_then(|v| v.as_i64()).unwrap_or(-1);
-                        out.push((i, iter_record(a, texts, parts, bl).to_string()));
+                        out.push((i, iter_record(a, texts, parts, bl, with_regex).to_string()));
                     }
                     out
                 })
